@@ -74,13 +74,13 @@ Term(n) ==
                              keep == SelectSeq([i \in 1..Len(n.k) |-> i], LAMBDA i : ~(n.k[i].zero /\ i <= Len(sig) /\ sig[i] = "G")) IN
                          [t |-> "op", s |-> n.h.s, a |-> [j \in 1..Len(keep) |-> Term(n.k[keep[j]])]]
     [] OTHER -> n.h
-\* rs = the rendered statements of a block (no nested blocks).  Returns the statement terms the design builds, or <<"rejected">>
+\* rs = the rendered statements of a block (no nested blocks).  Returns the statement terms the design builds, or <<[t |-> "rejected"]>>
 Rebuild(rs, bug) ==
   LET flat == FlatSeq(rs)
       first == IF bug = "ConnectBeforeResolve" THEN "connect" ELSE "resolve"
       second == IF bug = "ConnectBeforeResolve" THEN "resolve" ELSE "connect"
       p1 == Pass(flat, first, bug) IN
-  IF ~p1.ok THEN <<"rejected">>
+  IF ~p1.ok THEN <<[t |-> "rejected"]>>
   ELSE LET p2 == Pass(p1.L, second, bug) IN
-       IF ~p2.ok THEN <<"rejected">> ELSE [i \in 1..Len(p2.L) |-> Term(p2.L[i])]
+       IF ~p2.ok THEN <<[t |-> "rejected"]>> ELSE [i \in 1..Len(p2.L) |-> Term(p2.L[i])]
 ====
